@@ -390,6 +390,45 @@ def check(model: Model, run: Run) -> None:
             why = 'slice %s' % norm(v)
     run.check(ok_first, pn.qualname, 'next hop = first address of the next-hop field (%s)' % why, pn.loc(nb_node) if nb_node is not None else pn.loc(), 'with a 32-byte IPv6 next hop (global + link-local, RFC 2545) the route next hop is the global address, i.e. the first 16 bytes')
 
+    # what is stored in the Adj-RIB-In: each announced entry goes in with ITS OWN next hop
+    for hq in ('exabgp.reactor.peer.handlers.update.UpdateHandler.handle', 'exabgp.reactor.peer.handlers.update.UpdateHandler.handle_async'):
+        hf = model.funcs.get(hq)
+        if hf is None:
+            run.cannot('%s vanished' % hq)
+            continue
+        run.analysed(hf)
+        hl = Loc(model, hf)
+        hpm = parent_map(hf.node)
+        rcalls = [c for c in walk_no_nested(hf.node) if isinstance(c, ast.Call) and any(t.endswith('rib.route.Route') or t.endswith('rib.route.Route.__init__') for t in model.callees(hf.module, c))]
+        okr = bool(rcalls)
+        detail = ''
+        for c in rcalls:
+            nh = next((k.value for k in c.keywords if k.arg == 'nexthop'), c.args[2] if len(c.args) > 2 else None)
+            loop = None
+            cur: ast.AST | None = c
+            while cur is not None and loop is None:
+                cur = hpm.get(id(cur))
+                if isinstance(cur, (ast.For, ast.AsyncFor)) and 'announces' in hl.expand(cur.iter):
+                    loop = cur
+            if nh is None or loop is None or not isinstance(loop.target, ast.Name):
+                okr = False
+                detail = 'Route(...) outside a loop over the announced entries, or without next hop'
+                continue
+            v = loop.target.id
+
+            def in_loop(e: ast.AST | None, loop=loop, v=v) -> str:  # noqa: ANN001
+                # a local bound once inside the loop body stands for its value
+                if isinstance(e, ast.Name) and e.id != v:
+                    ds = [n.value for n in ast.walk(loop) if isinstance(n, ast.Assign) and len(n.targets) == 1 and isinstance(n.targets[0], ast.Name) and n.targets[0].id == e.id]
+                    if len(ds) == 1:
+                        return in_loop(ds[0])
+                return hl.expand(e, keep=[v]) if e is not None else ''
+
+            got_nh, got_nlri = in_loop(nh), in_loop(c.args[0] if c.args else None)
+            detail = 'Route(%s, ..., nexthop=%s)' % (got_nlri, got_nh)
+            okr = okr and got_nh == v + '.nexthop' and got_nlri == v + '.nlri'
+        run.check(okr, hq, 'every announced entry is stored with its own route and next hop (%s)' % detail, hf.loc(rcalls[0]) if rcalls else hf.loc(), 'the Adj-RIB-In entry must carry the next hop decoded for THAT route: the NEXT_HOP attribute for the NLRI section, the MP_REACH next hop for MP routes; taking one next hop for the whole UPDATE stores MP routes with the IPv4 NEXT_HOP')
+
     # ------------------------------------------------------------------ R6 decode uses the RECEIVE direction of ADD-PATH
     run.rule('C02.R6', 'decoding uses the receive direction of ADD-PATH: the flag handed to the NLRI decoders comes from Negotiated.required(afi, safi) (IN -> receive); no decode-side function reads RequirePath.send', floor=3)
     for qn in (MPR + '.unpack_attribute', MPU + '.unpack_attribute', UC + '._parse_payload'):
@@ -457,3 +496,64 @@ def check(model: Model, run: Run) -> None:
     from .C19 import cache_guard_rule
 
     cache_guard_rule(model, run, folder)
+
+    # ------------------------------------------------------------------ R8 flag tests can succeed
+    run.rule(
+        'C02.R8',
+        'every bit test on the decode path can succeed: the constants AND-ed with a value in a condition (attribute flags, '
+        'capability bits) do not cancel each other - OPTIONAL & TRANSITIVE is 0, so `flag & OPTIONAL & TRANSITIVE` never holds '
+        'and the branch it guards (stripping the Partial bit before the registry lookup) is dead',
+        floor=6,
+    )
+    from .C03 import decode_reachable
+
+    dec = decode_reachable(model, CallGraph(model))
+    n8 = 0
+    for q in sorted(dec):
+        f = model.funcs[q]
+        pm8 = parent_map(f.node)
+        for b in walk_no_nested(f.node):
+            if not (isinstance(b, ast.BinOp) and isinstance(b.op, ast.BitAnd)):
+                continue
+            par = pm8.get(id(b))
+            if isinstance(par, ast.BinOp) and isinstance(par.op, ast.BitAnd):
+                continue  # not the top of the chain
+            ops: list[ast.AST] = []
+            stack: list[ast.AST] = [b]
+            while stack:
+                x = stack.pop()
+                if isinstance(x, ast.BinOp) and isinstance(x.op, ast.BitAnd):
+                    stack += [x.right, x.left]
+                else:
+                    ops.append(x)
+            consts = [v for v in (folder.fold(o, f.module, f.cls) for o in ops) if isinstance(v, int) and not isinstance(v, bool)]
+            if not consts or len(consts) == len(ops):
+                continue
+            # used as a condition (if / while / conditional expression / and-or / not)?
+            cond = False
+            cur: ast.AST = b
+            while True:
+                p_ = pm8.get(id(cur))
+                if isinstance(p_, (ast.If, ast.While, ast.IfExp)) and p_.test is cur:
+                    cond = True
+                if isinstance(p_, (ast.BoolOp, ast.UnaryOp)) and not cond:
+                    cur = p_
+                    continue
+                break
+            if not cond:
+                continue
+            n8 += 1
+            mask = -1
+            for c in consts:
+                mask &= c
+            run.check(
+                mask != 0,
+                q,
+                'bit test %s can succeed (mask 0x%X)' % (norm(b)[:60], mask & 0xFFFFFFFF),
+                f.loc(b),
+                'the constants of this test AND to 0, so it is false for every value: the branch it guards never runs (for the '
+                'Partial-bit strip in AttributeCollection.parse: an optional transitive attribute that crossed a speaker which '
+                'did not recognise it keeps the Partial bit, fails the registry lookup and its routes are reported as withdrawn)',
+            )
+    if n8 < 6:
+        run.cannot('only %d bit tests found on the decode path' % n8)
